@@ -29,7 +29,7 @@ RULE = (
 STATE_MEASURE = "(attach-frame class, sequence of target frame classes {inertial, rotating, local}, fault sites)"
 PROBES = [
     "cov_visited_rotating_frame", "local_after_rotating", "drag_cov_with_state", "back_to_attach_frame", "fault_fired_natural",
-    "fault_fired_injected", "atomic_failure_checked", "pickled_then_converted", "cache_dropped", "copy_joined_heap", "attached_in_local_frame", "drag_then_local", "twin_object", "reattached_to_other_state", "cov_built_from_cov",
+    "fault_fired_injected", "atomic_failure_checked", "pickled_then_converted", "cache_dropped", "copy_joined_heap", "attached_in_local_frame", "drag_then_local", "twin_object", "reattached_to_other_state", "cov_built_from_cov", "class_changed_then_converted",
 ]
 REAL_VS_STUB = "real: Cov, StateVector/Orbit, frames/orientations (iau1980/iau2010 with zero or real IERS EOP from the simulated disk), to_local, pickle; stub: none (injected faults are raising wrappers in the node's private package copy); model: own QSW/TNW axes from (r0, v0) in F0, R C R^T with R from a pristine node's single-hop orientation matrix"
 ASSUMPTIONS = [
@@ -115,7 +115,16 @@ def gen_plan(rng, tier, i):
             {"op": rng.choice(["reattach", "reattach", "cov_from_cov", "pickle", "sv_copy"]), "obj": 0, "frame": None, "where": "other"},
             {"op": "cov_frame", "obj": rng.randrange(4), "frame": rng.choice([loc, loc] + LOCAL)},
         ] + ops[:1]
-    return {"knobs": {"object": obj, "twin": twin, "kep_b": kep_b, "real_eop": rng.random() < 0.35}, "ops": ops}
+    real_eop = rng.random() < 0.35
+    import random
+
+    child = random.Random("c14-child:" + repr(obj["cov_seed"]) + repr(len(ops)))  # operations added after the first version: own generator, earlier plans keep their draws
+    if child.random() < 0.3:
+        # the state becomes an Orbit / a StateVector again (as_orbit / as_statevector) somewhere in the history: same state, same covariance
+        ops.insert(child.randint(0, len(ops)), {"op": "as_other", "obj": child.randrange(4)})
+        if child.random() < 0.5:
+            ops.append({"op": "cov_frame", "obj": ops[-1]["obj"] if child.random() < 0.5 else child.randrange(4), "frame": child.choice(LOCAL + LOCAL + TARGETS)})
+    return {"knobs": {"object": obj, "twin": twin, "kep_b": kep_b, "real_eop": real_eop}, "ops": ops}
 
 
 # --------------------------------------------------------------------- model
@@ -649,6 +658,28 @@ class World:
             ctx.violate("pure-conversion", {"kind": "receiver_changed_by_cov_constructor"}, f"{where}: Cov(other, cov, None) modified the covariance it copies")
         if np.shares_memory(np.asarray(sv2.cov), np.asarray(o.cov)):
             ctx.violate("pure-conversion", {"kind": "cov_copy_shares_memory", "via": "constructor"}, f"{where}: the covariance built from another one shares its buffer with it")
+
+    def op_as_other(self, j, o, m, op, T, fail, before, where):
+        """StateVector.as_orbit(propagator) / Orbit.as_statevector(): the same state and the same covariance under the other class;
+        the history then continues on the new object."""
+        ctx = self.ctx
+        n = self.node
+        is_orbit = hasattr(o, "as_statevector") and type(o).__name__ == "Orbit"
+        try:
+            new = o.as_statevector() if is_orbit else o.as_orbit(n.mod("beyond.propagators.kepler").Kepler())
+        except Exception as e:  # noqa
+            ctx.violate("pure-rotation", {"kind": "unexpected_exception", "op": "as_other", "target": "-"}, f"{where}: {'as_statevector' if is_orbit else 'as_orbit'} raised {type(e).__name__}: {e}")
+            return
+        ctx.checks += 1
+        s_new = snap(new)
+        for key in ("cov", "cov_frame", "frame", "form"):
+            if s_new.get(key) != before[j].get(key):
+                ctx.violate("follows-state", {"kind": "class_change_altered_" + key}, f"{where}: {'as_statevector' if is_orbit else 'as_orbit'} changed the {key} ({before[j].get(key) if key != 'cov' else '...'} -> {s_new.get(key) if key != 'cov' else '...'})")
+                return
+        self.objs[j] = new
+        before[j] = s_new
+        ctx.probe("class_changed_then_converted")
+        ctx.sig.append(("as_other", "", "", ""))
 
     def op_pickle(self, j, o, m, op, T, fail, before, where):
         """The object is replaced by what another process (or this one) reads back from its pickle; the history then continues on it."""
